@@ -6,8 +6,8 @@
   that runs loss detection carries the detection's OUTCOME (which packets were declared lost and
   for which still-tracked packet the loss timer was armed) as a parameter, a `timeout` says whether
   the armed timer had expired.  The detailed, differential-tested model of the same code is
-  `QuicModel/Recovery/Manager.lean`; `Lemmas/Timers.lean` shows that its `updatePtoTimer` is this
-  one under the abstraction `PtoArmed.ofManager`.
+  `QuicModel/Recovery/Manager.lean`; `Lemmas/PtoArmed.lean` shows that its `updatePtoTimer` is this
+  one under the abstraction `ofManager`.
 
   `update_pto_timer`, transcribed branch by branch:
       self.pto_update_pending = false;
@@ -73,6 +73,14 @@ def updatePtoTimer (s : State) : State :=
     let ae := ackElicitingInFlight s
     if !ae && s.peerValidated then { s with ptoTimer := false }
     else { s with ptoTimer := true }
+
+/-- the guards of `updatePtoTimer` above in the numbering of `tools/extractors/timers.py`
+    (1 loss timer armed, 2 at amplification limit, 3 application space before confirmation,
+    4 nothing ack-eliciting in flight and peer validated); each cancels the PTO and returns -/
+def UPDATE_PTO_GUARDS : List Nat := [1, 2, 3, 4]
+
+/-- the construction of `timer_required` below in the extractor's numbering -/
+def TIMER_REQUIRED_STEPS : List Nat := [1, 2, 3, 4, 5]
 
 /-- `check_consistency`: `timer_required` -/
 def timerRequired (s : State) : Bool :=
